@@ -44,7 +44,21 @@ CLAIMS["C20"] = dict(
     note=TB + " Groups: correspondence + monitor on real traces only.",
     design_ref="DESIGN.md §7 C20")
 
+CLAIMS["C04"] = dict(
+    text="Theorem C04_join (FcProps/C04.lean): for both join models (array/Vec: pending counter + early any_ready test; "
+         "tuple arities 0..: completed counter + in-loop any_ready test + immediate return), every number of children n, all "
+         "child scripts, all histories (polls with any waker, wake-ups at any time, drop at any point, an injected child "
+         "panic) and both waker strategies, the monitor holds_C04 n holds on the model trace: every poll outcome is Ready "
+         "exactly when every child has resolved by the end of that poll (hence in the very poll in which the last child "
+         "resolves, and on the first poll for n = 0), the returned container holds child c's value at position c for all c, "
+         "and `misuse` only arises after the final result, an unwind or the drop. Proof: World-free step invariant "
+         "(FcLemmas/Sim.lean) relating the PollState/output table and the counter to what the children answered. "
+         "Future::join (Join2) is the tuple model at arity 2 by correspondence. The check re-proves, rebuilds the harness in "
+         "std/alloc/no_std, runs join over arrays (0..200), Vecs, tuples 0..12 and Future::join on the real code, diffs the "
+         "poll/child-poll projection against the model and evaluates holds_C04 on the real traces.",
+    note=TB, design_ref="DESIGN.md §7 C04")
+
 PENDING = "theorem not yet proved in this revision; the property is exercised by the shared correspondence runs but not claimed"
 NOT_APPLICABLE = {p: PENDING for p in
-                  ["C02", "C03", "C04", "C05", "C06", "C07", "C08", "C09", "C10", "C11", "C12", "C13", "C14",
+                  ["C02", "C03", "C05", "C06", "C07", "C08", "C09", "C10", "C11", "C12", "C13", "C14",
                    "C15", "C17", "C18", "C19"]}
